@@ -456,47 +456,73 @@ theorem stripPrefix_append (p s : Str) : stripPrefix p (p ++ s) = some s := by
 /-- the three event names the transport knows -/
 def KnownName (n : Str) : Prop := n = sEndpoint ∨ n = sMessage ∨ n = sKeepalive
 
-theorem stepLine_event (st : LSt) (n : Str) (crlf : Bool) (hn : KnownName n) :
-    stepLine st (sEventPfx ++ n ++ (if crlf then ['\r'] else [])) = ({ st with cur := some n }, []) := by
-  have hlast : ∀ c, (sEventPfx ++ n).getLast? = some c → c ≠ '\r' := by
-    rcases hn with h | h | h <;> subst h <;> intro c hc <;>
-      simp [sEventPfx, sEndpoint, sMessage, sKeepalive] at hc <;> subst hc <;> decide
-  have hstrip : strip n = n := by
-    rcases hn with h | h | h <;> subst h <;> decide
-  unfold stepLine
-  simp only [rstripCR_cr _ crlf hlast]
-  have hne : sEventPfx ++ n ≠ [] := by simp [sEventPfx]
-  simp [hne, stripPrefix_append, hstrip]
+theorem partitionColon_field (name v : Str) (hn : ':' ∉ name) :
+    partitionColon (name ++ ':' :: v) = (name, v) := by
+  induction name with
+  | nil => simp [partitionColon]
+  | cons c cs ih =>
+    have hc : c ≠ ':' := by intro h; simp [h] at hn
+    have hcs : ':' ∉ cs := by intro h; exact hn (List.mem_cons_of_mem _ h)
+    simp [partitionColon, hc, ih hcs]
 
-theorem stepLine_data (st : LSt) (d : Str) (crlf : Bool) (hd : CleanText d) :
-    stepLine st (sDataPfx ++ d ++ (if crlf then ['\r'] else [])) =
-      (if st.cur = some sEndpoint then ({ st with haveUrl := decide (strip d ≠ []) }, [.endpoint d])
-       else if st.cur = some sMessage then (st, [.message d])
-       else if st.cur = some sKeepalive then (st, [])
-       else if !st.haveUrl && (hasSub sMessages d || hasSub sMcp d) then
-          ({ st with haveUrl := decide (strip d ≠ []) }, [.endpoint d])
-       else if startsWith ['{'] d && hasSub sJsonrpc d then (st, [.message d])
-       else (st, [])) := by
-  have hlast : ∀ c, (sDataPfx ++ d).getLast? = some c → c ≠ '\r' := by
+theorem dropOneSpace_value (v : Str) (space : Bool) (h : space = true ∨ v.head? ≠ some ' ') :
+    dropOneSpace (if space then ' ' :: v else v) = v := by
+  cases space with
+  | true => simp [dropOneSpace]
+  | false =>
+    rcases h with h | h
+    · simp at h
+    · cases v with
+      | nil => simp [dropOneSpace]
+      | cons x xs =>
+        have : x ≠ ' ' := by intro hx; simp [hx] at h
+        simp only [Bool.false_eq_true, if_false]
+        unfold dropOneSpace
+        split <;> simp_all
+
+/-- one `field:value` line in any style, for the two fields the transport reads -/
+theorem stepLine_field (st : LSt) (name v : Str) (s : Style) (hname : name = sEvent ∨ name = sData)
+    (hv : OkLine v s) :
+    stepLine st (fieldLine name v s) =
+      (if name = sEvent then ({ st with cur := some { st.cur.getD Acc.empty with ty := some (strip v) } }, [])
+       else ({ st with cur := some { st.cur.getD Acc.empty with data := (st.cur.getD Acc.empty).data ++ [v] } }, [])) := by
+  obtain ⟨_, hcr, hsp⟩ := hv
+  have hcolon : ':' ∉ name := by rcases hname with h | h <;> subst h <;> decide
+  have hhead : ∀ rest, (name ++ rest).head? ≠ some ':' := by
+    intro rest; rcases hname with h | h <;> subst h <;> simp [sEvent, sData]
+  have hne : ∀ rest, name ++ rest ≠ [] := by
+    intro rest; rcases hname with h | h <;> subst h <;> simp [sEvent, sData]
+  have hlast : ∀ c, (name ++ ':' :: (if s.space then ' ' :: v else v)).getLast? = some c → c ≠ '\r' := by
     intro c hc
     rw [List.getLast?_append] at hc
-    cases hdl : d.getLast? with
+    cases hvl : v.getLast? with
     | none =>
-      simp [hdl, sDataPfx] at hc
-      subst hc; decide
+      have hv0 : v = [] := by cases v <;> simp_all
+      subst hv0
+      cases hs : s.space <;> simp [hs] at hc <;> subst hc <;> decide
     | some x =>
-      simp [hdl] at hc
+      have hx := hcr x hvl
+      have : (':' :: (if s.space then ' ' :: v else v)).getLast? = some x := by
+        cases hs : s.space <;> simp [List.getLast?_cons, hvl]
+      rw [this] at hc
+      simp at hc
       subst hc
-      have := hd.2.2 x hdl
-      intro hx; subst hx; revert this; decide
-  unfold stepLine
-  simp only [rstripCR_cr _ crlf hlast]
-  have hne : sDataPfx ++ d ≠ [] := by simp [sDataPfx]
-  have hev : stripPrefix sEventPfx (sDataPfx ++ d) = none := by simp [stripPrefix, sEventPfx, sDataPfx]
-  simp only [hne, if_false, hev, stripPrefix_append, strip_clean d hd]
+      exact hx
+  unfold stepLine fieldLine Style.cr
+  simp only [List.append_assoc] at *
+  have hl : rstripCR (name ++ (':' :: (if s.space then ' ' :: v else v) ++ if s.crlf then ['\r'] else [])) =
+      name ++ ':' :: (if s.space then ' ' :: v else v) := by
+    rw [← List.append_assoc]
+    exact rstripCR_cr _ s.crlf hlast
+  simp only [hl, hne, if_false, hhead, partitionColon_field _ _ hcolon, dropOneSpace_value v s.space hsp]
+  rcases hname with h | h
+  · subst h; simp
+  · subst h
+    have : sData ≠ sEvent := by decide
+    simp [this]
 
 theorem stepLine_blank (st : LSt) (crlf : Bool) :
-    stepLine st (if crlf then ['\r'] else []) = ({ st with cur := none }, []) := by
+    stepLine st (if crlf then ['\r'] else []) = dispatch st := by
   cases crlf <;> simp [stepLine, rstripCR, rdrop]
 
 theorem dropWhile_snoc_keep (p : Char → Bool) (r : Str) (x : Char) (hx : p x = false) :
@@ -518,7 +544,7 @@ theorem stepLine_comment (st : LSt) (c : Str) (crlf : Bool) :
     simp only [List.cons_append, rstripCR]
     exact rdrop_cons_keep _ ':' _ (by decide)
   rw [this]
-  simp [stripPrefix, sEventPfx, sDataPfx]
+  simp
 
 theorem splitLF_line (l rest : Str) (h : '\n' ∉ l) :
     splitLF (l ++ '\n' :: rest) = (l :: (splitLF rest).1, (splitLF rest).2) := by
@@ -538,47 +564,160 @@ theorem splitLF_join (lines : List Str) (h : ∀ l ∈ lines, '\n' ∉ l) :
     rw [splitLF_line l _ (h l (by simp)), ih (fun x hx => h x (by simp [hx]))]
 
 
-theorem evLines_noLF (e : Ev) (crlf : Bool) (h : e.Clean) : ∀ l ∈ evLines e crlf, '\n' ∉ l := by
+theorem fieldLine_noLF (name v : Str) (s : Style) (hn : '\n' ∉ name) (hv : '\n' ∉ v) :
+    '\n' ∉ fieldLine name v s := by
+  unfold fieldLine Style.cr
+  cases s.space <;> cases s.crlf <;> simp [hn, hv]
+
+theorem evLinesX_noLF (e : EvX) (s : Style) (h : e.Ok s) : ∀ l ∈ evLinesX e s, '\n' ∉ l := by
+  have hcr : '\n' ∉ s.cr := by unfold Style.cr; cases s.crlf <;> simp
+  have hE : '\n' ∉ sEvent := by decide
+  have hD : '\n' ∉ sData := by decide
   intro l hl
   cases e with
   | endpoint d =>
-    simp only [evLines, List.mem_cons, List.not_mem_nil, or_false] at hl
-    rcases hl with rfl | rfl | rfl <;> cases crlf <;> simp [sEventPfx, sEndpoint, sDataPfx, h.1]
-  | message d =>
-    simp only [evLines, List.mem_cons, List.not_mem_nil, or_false] at hl
-    rcases hl with rfl | rfl | rfl <;> cases crlf <;> simp [sEventPfx, sMessage, sDataPfx, h.1]
+    simp only [evLinesX, List.mem_cons, List.not_mem_nil, or_false] at hl
+    rcases hl with rfl | rfl | rfl
+    · exact fieldLine_noLF _ _ s hE (by decide)
+    · exact fieldLine_noLF _ _ s hD h.1
+    · exact hcr
+  | message ds =>
+    simp only [evLinesX, List.mem_cons, List.mem_append, List.mem_map, List.not_mem_nil, or_false] at hl
+    rcases hl with rfl | ⟨d, hd, rfl⟩ | rfl
+    · exact fieldLine_noLF _ _ s hE (by decide)
+    · exact fieldLine_noLF _ _ s hD (h d hd).1
+    · exact hcr
   | keepalive d =>
-    simp only [evLines, List.mem_cons, List.not_mem_nil, or_false] at hl
-    rcases hl with rfl | rfl | rfl <;> cases crlf <;> simp [sEventPfx, sKeepalive, sDataPfx, h.1]
+    simp only [evLinesX, List.mem_cons, List.not_mem_nil, or_false] at hl
+    rcases hl with rfl | rfl | rfl
+    · exact fieldLine_noLF _ _ s hE (by decide)
+    · exact fieldLine_noLF _ _ s hD h.1
+    · exact hcr
   | comment c =>
-    simp only [evLines, List.mem_cons, List.not_mem_nil, or_false] at hl
+    simp only [evLinesX, List.mem_cons, List.not_mem_nil, or_false] at hl
     subst hl
     have : '\n' ∉ c := h
-    cases crlf <;> simp [this]
+    unfold Style.cr
+    cases s.crlf <;> simp [this]
+
+theorem okLine_name (n : Str) (s : Style) (hn : KnownName n) : OkLine n s := by
+  rcases hn with h | h | h <;> subst h <;>
+    refine ⟨by decide, ?_, Or.inr (by decide)⟩ <;> intro c hc <;>
+    simp [sEndpoint, sMessage, sKeepalive] at hc <;> subst hc <;> decide
+
+theorem strip_name (n : Str) (hn : KnownName n) : strip n = n := by
+  rcases hn with h | h | h <;> subst h <;> decide
+
+/-- data lines are collected, nothing is dispatched -/
+theorem stepLines_data (st : LSt) (a : Acc) (hcur : st.cur = some a) (ds : List Str) (s : Style)
+    (h : ∀ d ∈ ds, OkLine d s) :
+    stepLines st (ds.map (fun d => fieldLine sData d s)) =
+      ({ st with cur := some { a with data := a.data ++ ds } }, []) := by
+  induction ds generalizing st a with
+  | nil =>
+    cases st
+    simp_all [stepLines]
+  | cons d ds ih =>
+    simp only [List.map_cons, stepLines]
+    rw [stepLine_field st sData d s (Or.inr rfl) (h d (by simp))]
+    have hne : sData ≠ sEvent := by decide
+    simp only [hne, if_false, hcur, Option.getD_some]
+    rw [ih _ { a with data := a.data ++ [d] } rfl (fun x hx => h x (by simp [hx]))]
+    simp [List.append_assoc]
 
 /-- one rendered event, read by the parser between events: exactly the event's action -/
-theorem stepLines_event (st : LSt) (hcur : st.cur = none) (e : Ev) (crlf : Bool) (h : e.Clean) :
-    (stepLines st (evLines e crlf)).2 = e.act.toList ∧ (stepLines st (evLines e crlf)).1.cur = none := by
+theorem stepLines_eventX (st : LSt) (hcur : st.cur = none) (e : EvX) (s : Style) (h : e.Ok s) :
+    (stepLines st (evLinesX e s)).2 = e.act.toList ∧ (stepLines st (evLinesX e s)).1.cur = none := by
+  have blank : ∀ st' : LSt, stepLine st' s.cr = dispatch st' := by
+    intro st'; unfold Style.cr; exact stepLine_blank st' s.crlf
   cases e with
   | endpoint d =>
-    simp only [evLines, stepLines, stepLine_event st sEndpoint crlf (Or.inl rfl)]
-    rw [stepLine_data _ d crlf h]
-    simp [stepLine_blank, Ev.act]
-  | message d =>
-    simp only [evLines, stepLines, stepLine_event st sMessage crlf (Or.inr (Or.inl rfl))]
-    rw [stepLine_data _ d crlf h]
-    have : sMessage ≠ sEndpoint := by decide
-    simp [stepLine_blank, Ev.act, this]
+    simp only [evLinesX, stepLines]
+    rw [stepLine_field st sEvent sEndpoint s (Or.inl rfl) (okLine_name _ s (Or.inl rfl))]
+    simp only [if_true]
+    rw [stepLine_field _ sData d s (Or.inr rfl) h]
+    have hne : sData ≠ sEvent := by decide
+    simp only [hne, if_false, blank]
+    simp [dispatch, hcur, Acc.empty, joinNL, strip_name sEndpoint (Or.inl rfl), EvX.act]
+  | message ds =>
+    simp only [evLinesX, stepLines]
+    rw [stepLine_field st sEvent sMessage s (Or.inl rfl) (okLine_name _ s (Or.inr (Or.inl rfl)))]
+    simp only [if_true, stepLines_append]
+    rw [stepLines_data _ _ rfl ds s h]
+    simp only [stepLines, blank]
+    have hm : sMessage ≠ sEndpoint := by decide
+    by_cases hds : ds = []
+    · simp [dispatch, hcur, Acc.empty, hds, EvX.act]
+    · simp [dispatch, hcur, Acc.empty, hds, EvX.act, strip_name sMessage (Or.inr (Or.inl rfl)), hm]
   | keepalive d =>
-    simp only [evLines, stepLines, stepLine_event st sKeepalive crlf (Or.inr (Or.inr rfl))]
-    rw [stepLine_data _ d crlf h]
+    simp only [evLinesX, stepLines]
+    rw [stepLine_field st sEvent sKeepalive s (Or.inl rfl) (okLine_name _ s (Or.inr (Or.inr rfl)))]
+    simp only [if_true]
+    rw [stepLine_field _ sData d s (Or.inr rfl) h]
+    have hne : sData ≠ sEvent := by decide
     have h1 : sKeepalive ≠ sEndpoint := by decide
     have h2 : sKeepalive ≠ sMessage := by decide
-    simp [stepLine_blank, Ev.act, h1, h2]
+    simp only [hne, if_false, blank]
+    simp [dispatch, hcur, Acc.empty, strip_name sKeepalive (Or.inr (Or.inr rfl)), EvX.act, h1, h2]
   | comment c =>
-    have := stepLine_comment st c crlf
+    have := stepLine_comment st c s.crlf
     simp only [List.cons_append] at this
-    simp [evLines, stepLines, this, Ev.act, hcur]
+    simp [evLinesX, stepLines, Style.cr, this, EvX.act, hcur]
+
+theorem stepLines_eventsX (st : LSt) (hcur : st.cur = none) (evs : List (EvX × Style))
+    (h : ∀ p ∈ evs, p.1.Ok p.2) :
+    (stepLines st (evs.flatMap (fun p => evLinesX p.1 p.2))).2 = evs.filterMap (fun p => p.1.act) := by
+  induction evs generalizing st with
+  | nil => simp [stepLines]
+  | cons p ps ih =>
+    have hp := stepLines_eventX st hcur p.1 p.2 (h p (by simp))
+    simp only [List.flatMap_cons, stepLines_append, List.filterMap_cons]
+    rw [ih _ hp.2 (fun x hx => h x (by simp [hx])), hp.1]
+    cases p.1.act <;> simp
+
+/-! the rendering with a space after every colon and one data line per event (used by C15) -/
+
+def Ev.toX : Ev → EvX
+  | .endpoint d => .endpoint d
+  | .message d => .message [d]
+  | .keepalive d => .keepalive d
+  | .comment c => .comment c
+
+theorem okLine_clean (d : Str) (crlf : Bool) (h : CleanText d) : OkLine d { crlf := crlf, space := true } := by
+  refine ⟨h.1, ?_, Or.inl rfl⟩
+  intro c hc
+  have := h.2.2 c hc
+  intro hx; subst hx; revert this; decide
+
+theorem ev_ok (e : Ev) (crlf : Bool) (h : e.Clean) : e.toX.Ok { crlf := crlf, space := true } := by
+  cases e with
+  | endpoint d => exact okLine_clean d crlf h
+  | message d =>
+    intro x hx
+    simp only [List.mem_cons, List.not_mem_nil, or_false] at hx
+    subst hx
+    exact okLine_clean _ crlf h
+  | keepalive d => exact okLine_clean d crlf h
+  | comment c => exact h
+
+theorem evLines_toX (e : Ev) (crlf : Bool) : evLines e crlf = evLinesX e.toX { crlf := crlf, space := true } := by
+  cases e <;> simp [evLines, evLinesX, Ev.toX, fieldLine, Style.cr, sEventPfx, sDataPfx, sEvent, sData]
+
+theorem ev_act (e : Ev) (h : e.Clean) : e.toX.act = e.act := by
+  cases e with
+  | endpoint d => simp [Ev.toX, EvX.act, Ev.act, strip_clean d h]
+  | message d => simp [Ev.toX, EvX.act, Ev.act, joinNL, strip_clean d h]
+  | keepalive d => rfl
+  | comment c => rfl
+
+theorem evLines_noLF (e : Ev) (crlf : Bool) (h : e.Clean) : ∀ l ∈ evLines e crlf, '\n' ∉ l := by
+  rw [evLines_toX]
+  exact evLinesX_noLF _ _ (ev_ok e crlf h)
+
+theorem stepLines_event (st : LSt) (hcur : st.cur = none) (e : Ev) (crlf : Bool) (h : e.Clean) :
+    (stepLines st (evLines e crlf)).2 = e.act.toList ∧ (stepLines st (evLines e crlf)).1.cur = none := by
+  rw [evLines_toX, ← ev_act e h]
+  exact stepLines_eventX st hcur _ _ (ev_ok e crlf h)
 
 theorem stepLines_events (st : LSt) (hcur : st.cur = none) (evs : List (Ev × Bool))
     (h : ∀ p ∈ evs, p.1.Clean) :
